@@ -7,6 +7,21 @@ From FIM Require Import Model.T8Graph Model.T8Ops Proofs.T8Frame Proofs.T8Query 
      Proofs.T8SoundTop Proofs.T8Complete Proofs.T8Closed Proofs.T8Top Proofs.T8Handles.
 Import ListNotations.
 
+(* classes of what one remove_cp_and_links deletes *)
+Lemma del_list_cases g0 s n dp z :
+  cons g0 s -> In z (cp_del_list (fst s) n dp) ->
+  z = n \/ (dp = true /\ In z (cpn g0 n)) \/ class_of g0 z = CLink.
+Proof.
+  intros C Hz. apply cp_del_list_In in Hz. destruct Hz as [Hz|Hz].
+  - unfold cp_family in Hz. rewrite dedup_In in Hz. destruct Hz as [<-|Hz]; [left; reflexivity|].
+    apply filter_In in Hz. destruct Hz as [Hz Hf]. apply andb_true_iff in Hf. destruct Hf as [_ Hf].
+    rewrite C in Hz. apply first_neighbor_restrict in Hz; [|discriminate]. destruct Hz as [Hz _].
+    right. left. auto.
+  - apply cp_links_In in Hz. destruct Hz as [i [_ [Hz _]]]. rewrite C in Hz.
+    apply first_neighbor_restrict in Hz; [|discriminate]. destruct Hz as [Hz _].
+    apply first_neighbor_In in Hz. right. right. tauto.
+Qed.
+
 Section Fixed.
 Variable g0 : graph.
 
@@ -162,6 +177,71 @@ Qed.
 Lemma JL_init : JL (g0, []).
 Proof. split; [apply cons_init | intros l a b _ []]. Qed.
 
+(* the disconnect loop of _disconnect_from_services over the interface list L.  DI: every connection point it has
+   deleted so far is the ServicePort peer of an interface of L, or next to such a peer.  `free L ii`: ii is neither -
+   the interfaces of the element are not connected to each other - so ii is still there at its turn (not skipped). *)
+Definition DI (L D : list N) : Prop :=
+  forall z, In z D -> class_of g0 z = CCP ->
+    exists jj p, In jj L /\ In p (peer_cps g0 jj) /\ type_of g0 p = T_ServicePort /\ (z = p \/ In z (cpn g0 p)).
+Definition free (L : list N) (ii : N) : Prop :=
+  forall jj, In jj L ->
+    ~ In ii (peer_cps g0 jj) /\ forall p, In p (peer_cps g0 jj) -> type_of g0 p = T_ServicePort -> ~ In ii (cpn g0 p).
+
+Lemma peers_step_DI L ii s s' :
+  cons g0 s -> DI L (snd s) -> In ii L -> disconnect_peers_of ii s = (inl tt, s') -> DI L (snd s').
+Proof.
+  intros C HD Hii E. destruct (disconnect_peers_of_ok ii s s' C E) as [_ [_ [_ Hc]]].
+  destruct Hc as [Hc|[x [Hx1 [Hx2 Hx3]]]]; [rewrite Hc; exact HD|].
+  destruct (remove_cp_ok g0 x true s s' C Hx3) as [_ [_ H]].
+  assert (Hp : In x (peer_cps g0 ii)) by (rewrite C in Hx1; apply (peer_cps_mono g0 (snd s)); exact Hx1).
+  assert (Ht : type_of g0 x = T_ServicePort).
+  { rewrite C in Hx2. destruct (type_of_restrict_eq g0 (snd s) x _ Hx2 ltac:(discriminate)) as [A _]. exact A. }
+  intros z Hz Hzc. apply H in Hz. destruct Hz as [Hz|Hz]; [|apply (HD z Hz Hzc)].
+  exists ii, x. split; [exact Hii|]. split; [exact Hp|]. split; [exact Ht|].
+  destruct (del_list_cases g0 s x true z C Hz) as [->|[[_ Hn]|Hl]]; [left; reflexivity | right; exact Hn | congruence].
+Qed.
+
+Lemma step_art L ii s s' :
+  JL s -> DI L (snd s) -> In ii L -> disconnect_step ii s = (inl tt, s') ->
+  JL s' /\ DI L (snd s') /\ (forall x, In x (snd s) -> In x (snd s')) /\ (free L ii -> Rart ii s').
+Proof.
+  intros HJ HD Hii E. unfold disconnect_step in E.
+  apply bind_ok in E. destruct E as [b [s1 [E1 E]]]. apply get_ok in E1. destruct E1 as [-> ->].
+  destruct (has_node (fst s) ii && cls_eqb (class_of (fst s) ii) CCP) eqn:Eb.
+  - destruct (peers_step ii s s' HJ E) as [A [B S']]. pose proof HJ as [C _].
+    split; [exact A|]. split; [apply (peers_step_DI L ii s s' C HD Hii E)|]. split; [exact S' | intros _; exact B].
+  - apply ret_ok in E. destruct E as [_ ->]. split; [exact HJ|]. split; [exact HD|]. split; [auto|].
+    intros Hf l sp Hl Ht. exfalso. pose proof HJ as [C _].
+    assert (Hc : class_of g0 ii = CCP).
+    { destruct Hl as [_ [_ Hm]]. apply (cpn_class g0 l). apply Hm. auto. }
+    destruct (in_dec N.eq_dec ii (snd s)) as [Hd|Hd].
+    + destruct (HD ii Hd Hc) as [jj [p [Hjj [Hp [Htp [->|Hn]]]]]].
+      * exact (proj1 (Hf jj Hjj) Hp).
+      * exact (proj2 (Hf jj Hjj) p Hp Htp Hn).
+    + assert (Hm : memN ii (snd s) = false) by (apply memN_false; exact Hd).
+      rewrite C, has_node_restrict, Hm, (class_of_restrict _ _ _ Hm), Hc in Eb. simpl in Eb.
+      unfold has_node, class_of in *. destruct (find_node g0 ii); [discriminate | discriminate].
+Qed.
+
+Lemma disc_loop L s s' :
+  JL s -> DI L (snd s) -> for_each_set disconnect_step L s = (inl tt, s') ->
+  JL s' /\ (forall ii, In ii L -> free L ii -> Rart ii s') /\ (forall x, In x (snd s) -> In x (snd s')).
+Proof.
+  intros HJ HD E. apply for_each_set_ok in E.
+  set (Jl := fun t : st => JL t /\ DI L (snd t) /\ forall x, In x (snd s) -> In x (snd t)).
+  assert (H : Jl s' /\ forall ii, In ii L -> (fun ii t => free L ii -> Rart ii t) ii s').
+  { apply (for_each_ok_all disconnect_step Jl (fun ii t => free L ii -> Rart ii t) L) with (s := s); [| | |exact E].
+    - intros ii t1 t2 Hii [A [D B]] Et. destruct (step_art L ii t1 t2 A D Hii Et) as [A' [D' [S' R']]].
+      split; [split; [exact A' | split; [exact D' | intros x Hx; apply S'; apply B; exact Hx]] | exact R'].
+    - intros ii y t1 t2 Hy [A [D _]] HR Et. destruct (step_art L y t1 t2 A D Hy Et) as [_ [_ [S' _]]].
+      intros Hf l0 sp Hl Ht. apply S'. apply (HR Hf l0 sp Hl Ht).
+    - split; [exact HJ | split; [exact HD | auto]]. }
+  destruct H as [[A [_ B]] R]. auto.
+Qed.
+
+Lemma DI_init L : DI L [].
+Proof. intros z []. Qed.
+
 End Fixed.
 
 (* the interfaces an operation disconnects before removing: the interfaces of the element and the
@@ -185,54 +265,69 @@ Definition disc_ifs (g : graph) (o : op) (ii : N) : Prop :=
   end.
 
 Lemma art_ns_disconnecting g s s' ii :
-  remove_ns_disconnecting s (g, []) = (inl tt, s') -> In ii (disc_list g (cpn g s)) -> Rart g ii s'.
+  remove_ns_disconnecting s (g, []) = (inl tt, s') -> In ii (disc_list g (cpn g s)) ->
+  free g (disc_list g (cpn g s)) ii -> Rart g ii s'.
 Proof.
-  intros E Hii. unfold remove_ns_disconnecting in E.
+  intros E Hii Hf. unfold remove_ns_disconnecting in E.
   apply bind_ok in E. destruct E as [ifs [s1 [E1 E]]]. apply get_ok in E1. destruct E1 as [-> ->].
   apply bind_ok in E. destruct E as [[] [s1 [E1 E]]].
-  destruct (peers_loop g _ _ _ (JL_init g) E1) as [[C1 _] [HR _]].
-  intros l sp Hl Ht. apply (ext_to g _ _ _ _ sp (Inv_remove_ns s) C1 E). apply (HR ii Hii l sp Hl Ht).
+  destruct (disc_loop g _ _ _ (JL_init g) (DI_init g _) E1) as [[C1 _] [HR _]].
+  intros l sp Hl Ht. apply (ext_to g _ _ _ _ sp (Inv_remove_ns s) C1 E). apply (HR ii Hii Hf l sp Hl Ht).
 Qed.
 
 Lemma art_node_tail g nm n s' ii :
   bind (m_get (fun g => disc_list g (node_interface_list g n))) (fun ifs =>
-  bind (for_each_set disconnect_peers_of ifs) (fun _ =>
+  bind (for_each_set disconnect_step ifs) (fun _ =>
   bind (m_get (fun g => by_name g CNode nm)) (fun all =>
   bind (uniq all EQuery EQuery) (fun n' => remove_node_graph n')))) (g, []) = (inl tt, s') ->
-  In ii (disc_list g (node_interface_list g n)) -> Rart g ii s'.
+  In ii (disc_list g (node_interface_list g n)) ->
+  free g (disc_list g (node_interface_list g n)) ii -> Rart g ii s'.
 Proof.
-  intros E Hii.
+  intros E Hii Hf.
   apply bind_ok in E. destruct E as [ifs [s1 [E1 E]]]. apply get_ok in E1. destruct E1 as [-> ->].
   apply bind_ok in E. destruct E as [[] [s1 [E1 E]]].
-  destruct (peers_loop g _ _ _ (JL_init g) E1) as [[C1 _] [HR _]].
+  destruct (disc_loop g _ _ _ (JL_init g) (DI_init g _) E1) as [[C1 _] [HR _]].
   intros l sp Hl Ht.
   assert (I : Inv (bind (m_get (fun g => by_name g CNode nm)) (fun all =>
               bind (uniq all EQuery EQuery) (fun n' => remove_node_graph n')))).
   { repeat first [apply Inv_remove_node_graph | inv_step]. }
-  apply (ext_to g _ _ _ _ sp I C1 E). apply (HR ii Hii l sp Hl Ht).
+  apply (ext_to g _ _ _ _ sp I C1 E). apply (HR ii Hii Hf l sp Hl Ht).
 Qed.
+
+(* the element's interfaces are not connected to each other: ii is not across a link from (nor next to a ServicePort
+   across a link from) another interface the operation disconnects.  Not needed where a single interface is handled. *)
+Definition self_peer_free (g : graph) (o : op) (ii : N) : Prop :=
+  match o with
+  | ORemoveChild _ _ | ODisconnect _ _ => True
+  | _ => forall jj, disc_ifs g o jj ->
+           ~ In ii (peer_cps g jj) /\
+           forall p, In p (peer_cps g jj) -> type_of g p = T_ServicePort -> ~ In ii (cpn g p)
+  end.
 
 (* "... and the peering artefacts created for it (the service-side port ...)": on normal return, the
    ServicePort across a two-ended link from any interface the operation disconnects is deleted *)
 Theorem artefact_ports_deleted ex o cs g r g' tr :
   run (exec ex o cs) g = (inl r, (g', tr)) ->
-  forall ii l sp, disc_ifs g o ii -> link2 g l ii sp -> type_of g sp = T_ServicePort -> In sp tr.
+  forall ii l sp, disc_ifs g o ii -> self_peer_free g o ii ->
+                  link2 g l ii sp -> type_of g sp = T_ServicePort -> In sp tr.
 Proof.
-  unfold run. destruct o; simpl; intros E ii l sp Hd Hl Ht; try (destruct Hd; fail).
+  unfold run. destruct o; simpl; intros E ii l sp Hd Hsf Hl Ht; try (destruct Hd; fail).
   - (* remove_node *)
     apply then_ret_ok in E. destruct E as [[] E]. unfold api_remove_node in E.
     apply bind_ok in E. destruct E as [cands [s1 [E1 E]]]. apply get_ok in E1. destruct E1 as [-> ->].
     apply bind_ok in E. destruct E as [n [s1 [E1 E]]]. apply uniq_ok in E1. destruct E1 as [Hc ->].
-    destruct Hd as [n' [Hn' Hii]]. simpl in Hc. rewrite Hc in Hn'. destruct Hn' as [<-|[]].
-    apply (art_node_tail g name n _ ii E Hii l sp Hl Ht).
+    destruct Hd as [n' [Hn' Hii]]. simpl in Hc. pose proof Hn' as Hn0. rewrite Hc in Hn'. destruct Hn' as [<-|[]].
+    refine (art_node_tail g name n _ ii E Hii _ l sp Hl Ht).
+    intros jj Hjj. apply Hsf. exists n. auto.
   - (* remove_facility *)
     apply then_ret_ok in E. destruct E as [[] E]. unfold api_remove_facility in E.
     apply bind_ok in E. destruct E as [all [s1 [E1 E]]]. apply get_ok in E1. destruct E1 as [-> ->].
     apply bind_ok in E. destruct E as [n [s1 [E1 E]]]. apply uniq_ok in E1. destruct E1 as [Hc ->].
     apply bind_ok in E. destruct E as [t [s1 [E1 E]]]. apply get_ok in E1. destruct E1 as [-> ->].
     apply bind_ok in E. destruct E as [[] [s1 [E1 E]]]. apply guard_ok in E1. destruct E1 as [_ ->].
-    destruct Hd as [n' [Hn' Hii]]. simpl in Hc. rewrite Hc in Hn'. destruct Hn' as [<-|[]].
-    apply (art_node_tail g name n _ ii E Hii l sp Hl Ht).
+    destruct Hd as [n' [Hn' Hii]]. simpl in Hc. pose proof Hn' as Hn0. rewrite Hc in Hn'. destruct Hn' as [<-|[]].
+    refine (art_node_tail g name n _ ii E Hii _ l sp Hl Ht).
+    intros jj Hjj. apply Hsf. exists n. auto.
   - (* remove_switch *)
     apply then_ret_ok in E. destruct E as [[] E]. unfold api_remove_switch in E.
     apply bind_ok in E. destruct E as [all [s1 [E1 E]]]. apply get_ok in E1. destruct E1 as [-> ->].
@@ -242,14 +337,16 @@ Proof.
     unfold api_remove_node in E.
     apply bind_ok in E. destruct E as [cands [s1 [E1 E]]]. apply get_ok in E1. destruct E1 as [-> ->].
     apply bind_ok in E. destruct E as [n [s1 [E1 E]]]. apply uniq_ok in E1. destruct E1 as [Hc ->].
-    destruct Hd as [n' [Hn' Hii]]. simpl in Hc. rewrite Hc in Hn'. destruct Hn' as [<-|[]].
-    apply (art_node_tail g name n _ ii E Hii l sp Hl Ht).
+    destruct Hd as [n' [Hn' Hii]]. simpl in Hc. pose proof Hn' as Hn0. rewrite Hc in Hn'. destruct Hn' as [<-|[]].
+    refine (art_node_tail g name n _ ii E Hii _ l sp Hl Ht).
+    intros jj Hjj. apply Hsf. exists n. auto.
   - (* topology.remove_network_service *)
     apply then_ret_ok in E. destruct E as [[] E]. unfold api_remove_ns_topo in E.
     apply bind_ok in E. destruct E as [all [s1 [E1 E]]]. apply get_ok in E1. destruct E1 as [-> ->].
     apply bind_ok in E. destruct E as [n [s1 [E1 E]]]. apply uniq_ok in E1. destruct E1 as [Hc ->].
-    destruct Hd as [s0 [Hs0 Hii]]. simpl in Hc. rewrite Hc in Hs0. destruct Hs0 as [<-|[]].
-    apply (art_ns_disconnecting g n _ ii E Hii l sp Hl Ht).
+    destruct Hd as [s0 [Hs0 Hii]]. simpl in Hc. pose proof Hs0 as Hs00. rewrite Hc in Hs0. destruct Hs0 as [<-|[]].
+    refine (art_ns_disconnecting g n _ ii E Hii _ l sp Hl Ht).
+    intros jj Hjj. apply Hsf. exists n. auto.
   - (* remove_component *)
     apply then_ret_ok in E. destruct E as [[] E]. unfold api_remove_component in E.
     apply bind_ok in E. destruct E as [[] [s1 [E1 E]]]. apply need_class_ok in E1. destruct E1 as [_ [_ ->]].
@@ -261,8 +358,9 @@ Proof.
     assert (Hxc : In c' (child_by_name g (first_neighbor g n RHas CComp) cname)).
     { unfold child_by_name. apply filter_In. split; [exact Hc1 | apply N.eqb_eq; exact Hc2]. }
     rewrite Hc in Hxc. destruct Hxc as [<-|[]].
-    destruct (peers_loop g _ _ _ (JL_init g) E1) as [[C1 _] [HR _]].
-    apply (ext_to g _ _ _ _ sp (Inv_remove_component c) C1 E). apply (HR ii Hii l sp Hl Ht).
+    destruct (disc_loop g _ _ _ (JL_init g) (DI_init g _) E1) as [[C1 _] [HR _]].
+    apply (ext_to g _ _ _ _ sp (Inv_remove_component c) C1 E). refine (HR ii Hii _ l sp Hl Ht).
+    intros jj Hjj. apply Hsf. exists c. auto.
   - (* node.remove_network_service *)
     apply then_ret_ok in E. destruct E as [[] E]. unfold api_node_remove_ns in E.
     apply bind_ok in E. destruct E as [x0 [s1 [E1 E]]]. apply need_node_ok in E1. destruct E1 as [_ ->].
@@ -273,7 +371,8 @@ Proof.
     assert (Hxc : In s' (child_by_name g (first_neighbor g n RHas CNS) sname)).
     { unfold child_by_name. apply filter_In. split; [exact Hs1 | apply N.eqb_eq; exact Hs2]. }
     rewrite Hs in Hxc. destruct Hxc as [<-|[]].
-    apply (art_ns_disconnecting g s0 _ ii E Hii l sp Hl Ht).
+    refine (art_ns_disconnecting g s0 _ ii E Hii _ l sp Hl Ht).
+    intros jj Hjj. apply Hsf. exists s0. auto.
   - (* disconnect_interface *)
     subst ii.
     apply bind_ok in E. destruct E as [c [s1 [E E2]]]. apply ret_ok in E2. destruct E2 as [_ E2]. subst s1.
@@ -359,21 +458,6 @@ Theorem disconnect_only_service_port ex s i cs g r g' tr :
   forall x, In x tr ->
   exists p, In p (peer_cps g i) /\ type_of g p = T_ServicePort /\ U_cp g p true x.
 Proof. intros E x Hx. exact (sound_exec ex (ODisconnect s i) cs g r g' tr E x Hx). Qed.
-
-(* classes of what one remove_cp_and_links deletes *)
-Lemma del_list_cases g0 s n dp z :
-  cons g0 s -> In z (cp_del_list (fst s) n dp) ->
-  z = n \/ (dp = true /\ In z (cpn g0 n)) \/ class_of g0 z = CLink.
-Proof.
-  intros C Hz. apply cp_del_list_In in Hz. destruct Hz as [Hz|Hz].
-  - unfold cp_family in Hz. rewrite dedup_In in Hz. destruct Hz as [<-|Hz]; [left; reflexivity|].
-    apply filter_In in Hz. destruct Hz as [Hz Hf]. apply andb_true_iff in Hf. destruct Hf as [_ Hf].
-    rewrite C in Hz. apply first_neighbor_restrict in Hz; [|discriminate]. destruct Hz as [Hz _].
-    right. left. auto.
-  - apply cp_links_In in Hz. destruct Hz as [i [_ [Hz _]]]. rewrite C in Hz.
-    apply first_neighbor_restrict in Hz; [|discriminate]. destruct Hz as [Hz _].
-    apply first_neighbor_In in Hz. right. right. tauto.
-Qed.
 
 (* NetworkService.remove_interface: the handle's list afterwards is what a fresh look-up reports.
    Hypothesis: no two ports of the service are next to each other. *)
@@ -465,4 +549,69 @@ Proof.
     destruct (Hp i y Hic Hx) as [_ [_ Hn]]. exact (Hn Hy).
   - intros [Hy Hnt]. split; [exact Hy|]. intros ->. apply Hnt. apply H2. left.
     apply cp_del_list_In. left. apply in_family_cur.
+Qed.
+
+(* Topology.remove_link (fix 65db950): a link that carries a ServicePort was made by connect_interface / peer;
+   the call raises and nothing changes *)
+Theorem remove_link_refuses_peering_link ex nm cs g r g' tr :
+  run (exec ex (ORemoveLink nm) cs) g = (r, (g', tr)) ->
+  (forall l, In l (by_name g CLink nm) -> link_has_service_port g l = true) ->
+  (exists e, r = inr e) /\ tr = [] /\ g' = g.
+Proof.
+  intros E H. unfold run in E. simpl in E. unfold bind, api_remove_link, bind, m_get, uniq in E. simpl in E.
+  destruct (by_name g CLink nm) as [|l [|l' r0]] eqn:Eb; simpl in E; try (inversion E; eauto; fail).
+  rewrite (H l (or_introl eq_refl)) in E. simpl in E. inversion E; eauto.
+Qed.
+
+(* ---- the handle's cached list never influences what happens to the model ---- *)
+Definition err_of {A} (r : A + exn) : option exn := match r with inl _ => None | inr e => Some e end.
+Definition same_eff {A B} (r : (A + exn) * st) (r' : (B + exn) * st) : Prop :=
+  snd r = snd r' /\ err_of (fst r) = err_of (fst r').
+
+Lemma same_eff_refl {A} (r : (A + exn) * st) : same_eff r r.
+Proof. split; reflexivity. Qed.
+
+Lemma same_eff_ret {A B} (a : A) (b : B) s : same_eff (ret a s) (ret b s).
+Proof. split; reflexivity. Qed.
+
+Lemma same_eff_bind {A B B'} (m : M A) (f : A -> M B) (f' : A -> M B') :
+  (forall x s, same_eff (f x s) (f' x s)) -> forall s, same_eff (bind m f s) (bind m f' s).
+Proof. intros H s. unfold bind. destruct (m s) as [[x|e] s1]; [apply H | split; reflexivity]. Qed.
+
+Lemma same_eff_then_ret {A A' B B'} (m : M A) (m' : M A') (h : A -> B) (h' : A' -> B') s :
+  same_eff (m s) (m' s) -> same_eff (bind m (fun x => ret (h x)) s) (bind m' (fun x => ret (h' x)) s).
+Proof.
+  unfold bind, ret, same_eff. destruct (m s) as [[x|e] s1], (m' s) as [[x'|e'] s1']; simpl;
+    intros [H1 H2]; split; try assumption; try discriminate; reflexivity.
+Qed.
+
+Lemma eff_api_disconnect i c c' s : same_eff (api_disconnect i c s) (api_disconnect i c' s).
+Proof.
+  unfold api_disconnect. apply same_eff_bind. intros r t. destruct r; apply same_eff_ret.
+Qed.
+
+Lemma eff_api_remove_interface ex s0 nm c c' s :
+  same_eff (api_remove_interface ex s0 nm c s) (api_remove_interface ex s0 nm c' s).
+Proof. unfold api_remove_interface. repeat (apply same_eff_bind; intros). apply same_eff_ret. Qed.
+
+Lemma eff_api_remove_child p nm c c' s :
+  same_eff (api_remove_child p nm c s) (api_remove_child p nm c' s).
+Proof. unfold api_remove_child. repeat (apply same_eff_bind; intros). apply same_eff_ret. Qed.
+
+Lemma eff_api_unpeer a b ca cb ca' cb' s :
+  same_eff (api_unpeer a b ca cb s) (api_unpeer a b ca' cb' s).
+Proof.
+  unfold api_unpeer. apply same_eff_bind. intros _ s1. apply same_eff_bind. intros _ s2.
+  apply same_eff_bind. intros e s3. destruct e as [[|xy [|xy' l]]|]; try apply same_eff_refl.
+  unfold api_unpeer_checked, api_unpeer_with. repeat (apply same_eff_bind; intros). apply same_eff_ret.
+Qed.
+
+Theorem cache_independent ex o cs cs' g : same_eff (run (exec ex o cs) g) (run (exec ex o cs') g).
+Proof.
+  unfold run. destruct o; simpl;
+    try (apply same_eff_bind; intros; apply same_eff_ret).
+  - apply (same_eff_then_ret _ _ (fun c => [c]) (fun c => [c])). apply eff_api_disconnect.
+  - apply (same_eff_then_ret _ _ (fun cc => [fst cc; snd cc]) (fun cc => [fst cc; snd cc])). apply eff_api_unpeer.
+  - apply (same_eff_then_ret _ _ (fun c => [c]) (fun c => [c])). apply eff_api_remove_interface.
+  - apply (same_eff_then_ret _ _ (fun c => [c]) (fun c => [c])). apply eff_api_remove_child.
 Qed.
